@@ -623,8 +623,6 @@ public:
 
 	friend bool operator==(const unordered_multimap& left, const unordered_multimap& right)
 	{
-		if (left.mHashMultiMap.GetKeyCount() != right.mHashMultiMap.GetKeyCount())
-			return false;
 		if (left.mHashMultiMap.GetCount() != right.mHashMultiMap.GetCount())
 			return false;
 		typedef typename HashMultiMap::ConstKeyIterator ConstKeyIterator;
